@@ -362,6 +362,9 @@ func (parser *Parser) ParseExpression(depth int) (res Sexp, err error) {
 		exp, err := parser.ParseInfix(depth + 1)
 		return exp, err
 	case TokenQuote:
+		if err := parser.needOperand(); err != nil {
+			return SexpNull, err
+		}
 		expr, err := parser.ParseExpression(depth + 1)
 		if err != nil {
 			return SexpNull, err
@@ -369,18 +372,27 @@ func (parser *Parser) ParseExpression(depth int) (res Sexp, err error) {
 		return MakeList([]Sexp{env.MakeSymbol("quote"), expr}), nil
 	case TokenCaret:
 		// '^' is now our syntax-quote symbol, not TokenBacktick, to allow go-style `string literals`.
+		if err := parser.needOperand(); err != nil {
+			return SexpNull, err
+		}
 		expr, err := parser.ParseExpression(depth + 1)
 		if err != nil {
 			return SexpNull, err
 		}
 		return MakeList([]Sexp{env.MakeSymbol("syntaxQuote"), expr}), nil
 	case TokenTilde:
+		if err := parser.needOperand(); err != nil {
+			return SexpNull, err
+		}
 		expr, err := parser.ParseExpression(depth + 1)
 		if err != nil {
 			return SexpNull, err
 		}
 		return MakeList([]Sexp{env.MakeSymbol("unquote"), expr}), nil
 	case TokenTildeAt:
+		if err := parser.needOperand(); err != nil {
+			return SexpNull, err
+		}
 		expr, err := parser.ParseExpression(depth + 1)
 		if err != nil {
 			return SexpNull, err
@@ -525,6 +537,14 @@ func (parser *Parser) ParseExpression(depth int) (res Sexp, err error) {
 		return &SexpSemicolon{}, nil
 	}
 	return SexpNull, fmt.Errorf("Invalid syntax, don't know what to do with '%v' (TokenType: %v)", tok, tok.typ)
+}
+
+// needOperand waits until the token that a reader prefix (' ^ ~ ~@)
+// applies to is available, asking for more input if the text so far
+// ends right after the prefix.
+func (parser *Parser) needOperand() error {
+	_, err := parser.ParserPeekNextToken(0)
+	return err
 }
 
 // ParseTokens is the main service the Parser provides.
